@@ -5,7 +5,8 @@ deterministic world (only Thread.start/join of that class are redirected to the 
 created by a real ``Cluster(idle_heartbeat_interval=I, idle_heartbeat_timeout=T)`` over its real
 pools and control connection, or constructed directly over small holder objects with real
 handshaken connections.  Round by round the scenario makes connections busy or leaves them idle
-and lets the node answer the heartbeat OPTIONS normally / with an ERROR / with an unexpected
+and lets the node answer the heartbeat OPTIONS at once / late but within the timeout (staggered
+fractions of the timeout over the connections of one round) / with an ERROR / with an unexpected
 message / not at all, or closes the connection underneath.  What the node received per
 connection and round, the connection flags, the owners' ``return_connection`` calls and the
 request-id accounting before/after each round are judged.
@@ -18,7 +19,8 @@ ENGINE = "sim"
 TECHNIQUE = "runtime monitor in a deterministic world: heartbeat OPTIONS counted per connection and interval at the node, defunct/owner-notification and request-id conservation checked per round"
 LEVEL_TEXT = ("Hundreds (quick) to tens of thousands (thorough) of seeded histories of 3-7 heartbeat rounds over 2-8 connections (real pools + control "
               "connection of a Cluster at protocol v2/v4/v5, or direct holders), each connection per round idle or busy and its heartbeat "
-              "answered / answered with ERROR / answered with an unexpected message / unanswered / the connection closed or reset underneath, "
+              "answered at once / answered after 0.15-0.9 x timeout (staggered over the >= 3 connections of a round) / answered with ERROR / "
+              "answered with an unexpected message / unanswered / the connection closed or reset underneath, "
               "under seeded interleavings of heartbeat thread, reactor and executor: idle -> exactly one OPTIONS in the interval, busy -> none, "
               "failed or silent -> defunct and owner.return_connection called (owner drops it), success -> in_flight / free ids / highest id "
               "unchanged. Held-on-observed schedules.")
@@ -103,6 +105,8 @@ def run_history(seed, quick):
     proto = rng.choice([2, 4, 4, 5])
     nnodes = rng.choice([1, 2, 2, 3]) if mode == 'cluster' else rng.choice([1, 2])
     rounds = rng.randint(3, 7)
+    calm = rng.random() < 0.45           # no traffic / deaths between rounds: every connection is idle in every round after the first
+    p_slow_round = rng.choice([0.0, 0.3, 0.6, 0.9])
     ch = W.RandomChooser(random.Random(seed * 7 + 3), p_time=0.0, p_preempt=rng.choice([0.0, 0.1, 0.25]))
     addrs = ['127.0.0.%d' % (i + 1) for i in range(nnodes)]
     env = SimEnv(ch, addresses=addrs, max_steps=250000)
@@ -125,6 +129,11 @@ def run_history(seed, quick):
                 return node.reply(cstate, req, 'READY', b'')
             if tr == 'silent':
                 return ('silence',)
+            if isinstance(tr, tuple):          # ('slow', f): the answer leaves the server f x timeout after the request arrived
+                frame = node.default_reaction(cstate, req)[1]
+                conn = cstate.conn
+                node.net.world.add_timer(tr[1] * T, (lambda: node.net.send(conn, frame)), label='slow-answer')
+                return ('silence',)
             return None
         return None
     for n in env.net.nodes.values():
@@ -132,7 +141,7 @@ def run_history(seed, quick):
     viol = []
     stats = {'rounds': 0, 'conn_rounds': 0, 'idle_ok': 0, 'busy': 0, 'failed': 0, 'silent': 0, 'closed_underneath': 0, 'dead_found': 0,
              'capacity_checks': 0, 'return_calls_seen': 0, 'heartbeats_at_node': 0, 'control_rounds': 0, 'pool_rounds': 0, 'replaced_seen': 0,
-             'raced_close': 0, 'collateral': 0, 'owner_still_lists': 0, 'ambiguous': 0}
+             'raced_close': 0, 'collateral': 0, 'owner_still_lists': 0, 'ambiguous': 0, 'slow_ok': 0, 'rounds_3_slow': 0}
     ret_log = []         # (owner, conn, t)
 
     def wrap_owner(o):
@@ -164,7 +173,7 @@ def run_history(seed, quick):
         else:
             for hi in range(rng.randint(1, 3)):
                 h = Holder(world, 'h%d' % hi)
-                for _ in range(rng.randint(1, 3)):
+                for _ in range(rng.randint(2, 3) if calm else rng.randint(1, 3)):
                     h.conns.append(env.conn_class.factory(DefaultEndPoint(rng.choice(addrs)), 5.0, protocol_version=proto))
                 holders.append(h)
 
@@ -208,6 +217,7 @@ def run_history(seed, quick):
             hb_A = len(hb_seen)
             rows = []
             nfail = 0
+            slow_round = rng.random() < p_slow_round      # the server answers this round's heartbeats late but within the timeout, staggered
             for c, o in cur:
                 cid = c.sim_id
                 alive = not (c.is_closed or c.is_defunct)
@@ -223,6 +233,8 @@ def run_history(seed, quick):
                             tr = 'ok'
                         else:
                             nfail += 1
+                    if tr == 'ok' and slow_round:
+                        tr = ('slow', rng.choice([0.15, 0.3, 0.4, 0.5, 0.6, 0.7, 0.8, 0.9]))
                     if tr in ('close-at-round', 'reset-at-round'):
                         world.add_timer(max(0.0, tk - world.now) + rng.choice([0.0, 0.0, 1e-5]),
                                         (lambda c=c, tr=tr: env.net.server_close(c, reset=(tr == 'reset-at-round'))), label='server-close')
@@ -236,6 +248,8 @@ def run_history(seed, quick):
             world.advance_to(B)
             world.preempt = False
             stats['rounds'] += 1
+            if sum(1 for r in rows if isinstance(r['tr'], tuple)) >= 3:
+                stats['rounds_3_slow'] += 1
             for r in rows:
                 c, o, cid = r['c'], r['o'], r['cid']
                 stats['conn_rounds'] += 1
@@ -282,7 +296,10 @@ def run_history(seed, quick):
                 if n_opt != 1:
                     viol.append(('idle-connection-heartbeat-count', '%s: idle for the whole interval, %d OPTIONS arrived (expected exactly 1)' % (tag, n_opt)))
                     continue
-                if tr == 'ok':
+                if tr == 'ok' or isinstance(tr, tuple):
+                    if isinstance(tr, tuple):
+                        stats['slow_ok'] += 1
+                        tag += ' (answered after %.2f x timeout)' % tr[1]
                     stats['idle_ok'] += 1
                     stats['capacity_checks'] += 1
                     after = snapshot(c)
@@ -322,6 +339,9 @@ def run_history(seed, quick):
             # ---------------- between the rounds: traffic, silent deaths, replacements
             world.preempt = True
             world.advance_to(tk + 0.6 * I)
+            if calm:
+                world.preempt = False
+                continue
             if mode == 'cluster':
                 if session is not None and not cluster.is_shutdown:
                     for _ in range(rng.choice([0, 0, 1, 3, 6])):
@@ -403,14 +423,18 @@ def run(ctx):
                "and 'one heartbeat per interval' is not well defined); a connection that is full (in_flight at the stream-id limit) is not generated")
     ctx.assume("traffic, silent connection deaths and replacements happen strictly between rounds; server closes that race the round are timed at the "
                "round's instant and may or may not be preceded by the heartbeat's OPTIONS (both accepted), a dead connection an owner still lists at the next round must be handed to return_connection then")
-    n = ctx.scale(2500, 120000)
-    budget = 34 if ctx.quick else 400
+    # the amount of work is fixed by counts (deterministic); the wall-clock cap only guards against a badly overloaded machine
+    n = 300 if ctx.quick else 4000            # per worker (~50 ms CPU per history)
+    wall_cap = 80.0 if ctx.quick else 520.0
     import time
-    t_run0 = time.time()          # the budget counts from here (imports done); at most 25 s of start-up slack on a loaded machine
+    from sim import s5_handshake as H
+    run_history(ctx.seed * 1000003 + 999983, ctx.quick)       # warm-up: everything imported lazily is loaded now
+    H.settle_heap()
+    t_run0 = time.time()
     base = ctx.seed * 1000003 + (ctx.worker or 0) * 100003
     for i in range(n):
-        if min(budget - (time.time() - t_run0), ctx.time_left(budget + 25)) < 0 and i >= 20:
-            ctx.note("stopped by the time budget after %d histories" % i)
+        if time.time() - t_run0 > wall_cap and i >= 20:
+            ctx.note("stopped by the wall-clock cap after %d of %d histories" % (i, n))
             break
         seed = base + i
         try:
@@ -436,7 +460,8 @@ def run(ctx):
                          ('heartbeats_at_node', 'heartbeat_options_seen_at_node'), ('control_rounds', 'control_connection_rounds'),
                          ('replaced_seen', 'replacement_connections_seen'), ('collateral', 'connections_closed_by_owner_for_a_sibling_failure'),
                          ('owner_still_lists', 'failed_connections_still_listed_by_notified_owner'),
-                         ('ambiguous', 'connections_born_during_a_round_not_judged')):
+                         ('ambiguous', 'connections_born_during_a_round_not_judged'), ('slow_ok', 'heartbeats_answered_late_within_timeout'),
+                         ('rounds_3_slow', 'rounds_with_3_or_more_staggered_late_answers')):
             ctx.count(name, st[k_])
         if harness and not viol:
             raise Inconclusive("harness error in history seed %d: %r" % (seed, harness[:2]))
@@ -448,10 +473,12 @@ def run(ctx):
             ctx.violation(mech, "%s [seed %d, %s, interval %.0f timeout %.1f, v%d]" % (what, seed, info['mode'], info['interval'], info['timeout'], info['proto']), info)
         if not viol and len(ctx.samples) < 5 and st['silent'] and st['busy'] and random.Random(seed).random() < 0.1:
             ctx.sample(info)
-    ctx.floor_distinct = 100 if ctx.quick else 4000
-    k = 1 if ctx.quick else 15
+    # floors: well below the fixed amount of work (quick 4 x 300 histories, thorough 14 x 4000)
+    ctx.floor_distinct = 100 if ctx.quick else 1500
+    k = 1 if ctx.quick else 8
     ctx.floor_counters = {"histories": 150 * k, "heartbeat_rounds": 600 * k, "idle_connections_heartbeat_answered": 500 * k,
-                          "busy_connections_no_heartbeat": 300 * k, "heartbeats_answered_with_error_or_unexpected": 60 * k,
-                          "heartbeats_unanswered": 30 * k, "connections_closed_at_the_round": 30 * k, "dead_connections_found_by_heartbeat": 15 * k,
+                          "busy_connections_no_heartbeat": 300 * k, "heartbeats_answered_with_error_or_unexpected": 40 * k,
+                          "heartbeats_unanswered": 20 * k, "connections_closed_at_the_round": 20 * k, "dead_connections_found_by_heartbeat": 10 * k,
                           "capacity_conservation_checks": 500 * k, "control_connection_rounds": 100 * k, "histories_cluster": 40 * k,
-                          "histories_holders": 40 * k}
+                          "histories_holders": 40 * k, "heartbeats_answered_late_within_timeout": 150 * k,
+                          "rounds_with_3_or_more_staggered_late_answers": 20 * k}
